@@ -42,6 +42,7 @@ SELECTORS = ["pT", "rapidity", "pseudorapidity"]
 _OBJ = {}
 _NEW = [0]
 _VIA_RNG = __import__("random").Random(1101)
+_BROKEN_SEEN = []
 _FORCE_VIA = [None]   # replay: run the input with the estimator used as built, deep-copied, unpickled, shallow-copied
 
 
@@ -250,14 +251,21 @@ def gen_phis(rng, k, nev_max=4, mmax=9, flowy=None, harm=2):
     m0 = rng.randint(k, mmax)
     out = []
     v = rng.choice([0.0, 0.15, 0.4]) if flowy is None else flowy
-    for _ in range(nev):
-        m = m0 if same else rng.randint(k, mmax)
+    mults = [m0 if same else rng.randint(k, mmax) for _ in range(nev)]
+    if nev >= 3 and not same and rng.random() < 0.35:
+        # unequal multiplicities whose mean equals the first one (a false "all equal" test would pass)
+        d = rng.randint(1, max(1, (mmax - k) // 2))
+        c = rng.randint(k + d, max(k + d, mmax - d))
+        mults = [c, c - d, c + d] + [c] * (nev - 3)
+    for m in mults:
         psi = rng.uniform(-math.pi, math.pi)
         ev = []
         while len(ev) < m:
             p = rng.uniform(-math.pi, math.pi)
             if rng.random() < (1 + 2 * v * math.cos(harm * (p - psi))) / (1 + 2 * v):
                 ev.append(p)
+                if len(ev) < m and rng.random() < 0.08:
+                    ev.append(p)          # a second particle with the bit-identical azimuth (collinear / duplicated track)
         out.append(ev)
     return out
 
@@ -283,9 +291,13 @@ def gen_diff_case(rng, k):
     parts = []
     for ev in phis:
         pe = []
+        prev = None
         for p in ev:
             pt = rng.choice([0.25, 0.5, 0.75, 1.0, 1.5, rng.uniform(0.1, 2.0)])
             y = rng.choice([-0.5, 0.0, 0.5, rng.uniform(-1, 1)])
+            if prev is not None and prev[0] == p and rng.random() < 0.6:
+                pt, y = prev[1], prev[2]      # the duplicated azimuth also shares pT and rapidity: same bin, bit-equal phi()
+            prev = (p, pt, y)
             pe.append(mk_particle(pt, p, y, rng.choice(species)))
         parts.append(pe)
     r = rng.random()
@@ -414,6 +426,11 @@ def correspond(ctx):
             if not ok:
                 ctx.brk("correspondence-broken", f"v_{n}{{{k}}} imaginary={imag}: code {rv!r} vs model {out}",
                         case=dict(op=op, n=n, k=k, imaginary=imag, phis=data))
+                if len(_BROKEN_SEEN) < 8:   # where model and code part ways is the first place to look for a failing input
+                    _BROKEN_SEEN.append(1)
+                    r = check_integrated(data, n, k, imag)
+                    if r:
+                        ctx.violation(r[0], r[1], dict(input=dict(kind="integrated", n=n, k=k, imaginary=imag, phis=data), detail=r[2]))
         elif op == "gdflow":
             pev, rv, sel, poi, edges = data
             if not has_tuples(pev, k):
